@@ -22,6 +22,10 @@ def domain(ctx):
     inst = (1 + s % 0xF000, 2 + s % 0xF000, 0xFFFF, 0xFFFE)
     maj = (1 + s % 0xF0, 2 + s % 0xF0, 0xFF, 0xFE)
     mino = (s % 0xFFFF0000, 1 + s % 0xFFFF0000, 0xFFFFFFFF, 0xFFFFFFFE)
+    # the other fields' wildcard constants where they fit the field's width (0xFF as an instance id or a
+    # minor version, 0xFFFF as a minor version are ordinary concrete values)
+    inst += (0x00FF,)
+    mino += (0xFF, 0xFFFF)
     if ctx.thorough:
         inst += (0, 0x8000)
         maj += (0, 0x80)
